@@ -89,8 +89,8 @@ theorem writeHintedName_round_trip (hint : Hint) (n : WName) (s : State) (h : WI
     have hstd : labelsMatch .standard n.labels ls = true := by
       unfold effMode at hmt
       split at hmt
-      · exact labelsMatch_std hmt
       · exact hmt
+      · exact labelsMatch_std hmt
     exact (labelsMatch_std_wire hstd).symm
   · intro hm
     cases hmode : s.mode with
